@@ -110,7 +110,7 @@ def _dejson(v):
 
 _json_leaf = st.one_of(st.none(), st.booleans(), st.integers(-2**40, 2**40), st.text(max_size=12),
                        st.floats(allow_nan=False, allow_infinity=False))
-_json_val = st.recursive(_json_leaf, lambda c: st.one_of(st.lists(c, max_size=4), st.dictionaries(st.text(max_size=4), c, max_size=3),
+_json_val = st.recursive(_json_leaf, lambda c: st.one_of(st.lists(c, max_size=4), st.dictionaries(st.text(alphabet='abkz_ ', max_size=4), c, max_size=3),
                                                           st.builds(lambda l: {'__t': l}, st.lists(c, max_size=3))), max_leaves=8)
 _SIZES = [0, 1, 3, 4, 5, 255, 256, 65535, 65536, 300000]
 _msg = st.one_of(st.builds(lambda n: {'bytes': n}, st.sampled_from(_SIZES)),
